@@ -21,6 +21,8 @@ ASSUMPTIONS = [
     "running; the channel receiver persists; requests sent while the loop is down are consumed after the restart, in order",
     "a component group is the SET of component ids: every request carries its own set/frozenset object, built with ascending or "
     "descending insertion order over ids that collide in a small hash table (equal sets, different iteration order)",
+    "a caller may keep one mutable set of component ids per group, pass it uncopied as Request.component_ids and update it in place "
+    "while its requests are in flight or pending; the group of a request is the set of ids it carried when it was sent",
     "requests are told apart by object identity (the harness maps id(request) to a sequence number); their VALUES may be equal",
     "several PowerDistributingActor instances in one process (the `instances` stream) are independent machines: each is replayed "
     "through its own copy of the model and judged by the oracle on its own trace; a stopped instance's in-flight distribution keeps "
